@@ -205,7 +205,7 @@ def run_shard(spec, rec):
                 rec.feat("case:planted")
             else:
                 q = gen_case(R, gen)
-                doc = D.doc_for(R, q, maxdepth=R.choice([2, 3, 4]), maxwidth=R.choice([3, 4, 5]), feat=rec.features)
+                doc = D.doc_for(R, q, maxdepth=R.choice([2, 3, 4]), maxwidth=R.choice([3, 4, 5]), feat=rec.features, shapes=0.04, shape_scale=0.25)
                 rec.feat("case:random")
             text = G.render(q, R, feat=rec.features)
             via = R.choice(["find", "finditer", "finditer"])
